@@ -35,7 +35,7 @@ Failure classes (signatures):
   read_cgsmiles/consecutive-branch-closures/unmodelled/<kind>
         the text is of that class but the result is something else -> not covered by the finding.
   read_cgsmiles/<features>/<kind>
-        everything else; <features> names which of branch, nested, ring, pct-ring, symbol, annotation occur.
+        everything else; <features> names which of branch, ring, symbol, annotation occur.
 """
 import logging
 
@@ -54,8 +54,9 @@ BOUNDS = {
               'non_default_bond_symbols': 2, 'symbols': ['.', '-', '=', '#', '$'],
               'annotation_forms': len(g1.ANNOTATIONS), 'annotated_max_node_tokens': 4,
               'random_cases': 4000, 'random_node_tokens': '5..14', 'random_rings': '0..3 (<=3 open)'},
-    'thorough': {'exhaustive_max_node_tokens': '5 with <=2 ring bonds and <=2 symbols; 6 with <=1 ring bond and <=1 symbol '
-                                               'and 6 without rings and <=2 symbols',
+    'thorough': {'exhaustive_max_node_tokens': '4 with <=2 ring bonds and <=2 symbols; 5 with (<=1 ring bond, <=2 symbols) and '
+                                               '(<=2 ring bonds, <=1 symbol); 6 with (no ring, <=2 symbols), (<=1 ring bond, '
+                                               '<=1 symbol) and (<=2 ring bonds, no symbol)',
                  'nesting_depth': 3, 'branches_per_node': 3, 'simultaneously_open_rings': 2,
                  'ring_spellings': 'digit, %nn, digit/%0n, %0n/digit, reused id',
                  'symbols': ['.', '-', '=', '#', '$'],
@@ -81,19 +82,30 @@ def init_worker():
     logging.getLogger('pysmiles').setLevel(logging.ERROR)
 
 
+def _with_text(gen, n=12):
+    """the first few cases also carry their text, so that the samples in the evidence can be read"""
+    for i, c in enumerate(gen):
+        if i < n:
+            c = dict(c)
+            c['text'] = g1.render(g1.build(c))
+        yield c
+
+
 def cases(tier, seed):
     if tier == 'quick':
         # small sizes first: every class of failure already shows at 3-4 tokens
-        yield from g1.c04_recipes(4, max_rings=2, max_nondefault=2)
+        yield from _with_text(g1.c04_recipes(4, max_rings=2, max_nondefault=2))
         yield from g1.c04_annotated_recipes(4)
         yield from g1.c04_random(seed, 4000)
     else:
-        yield from g1.c04_recipes(4, max_rings=2, max_nondefault=2)
+        yield from _with_text(g1.c04_recipes(4, max_rings=2, max_nondefault=2))
         yield from g1.c04_annotated_recipes(6)
         yield from g1.c04_random(seed, 30000)
         yield from g1.c04_recipes(6, max_rings=0, max_nondefault=2, min_tokens=6)
+        yield from g1.c04_recipes(5, max_rings=1, max_nondefault=2, min_tokens=5)
+        yield from g1.c04_recipes(5, max_rings=2, max_nondefault=1, min_tokens=5)
         yield from g1.c04_recipes(6, max_rings=1, max_nondefault=1, min_tokens=6)
-        yield from g1.c04_recipes(5, max_rings=2, max_nondefault=2, min_tokens=5)
+        yield from g1.c04_recipes(6, max_rings=2, max_nondefault=0, min_tokens=6)
         yield from g1.c04_random(seed + 1, 120000)
 
 
@@ -161,12 +173,11 @@ observed_lists = g1.observed_lists
 compare = g1.compare_exact
 
 
+F7_SIGNATURE = 'read_cgsmiles/consecutive-branch-closures'
+
+
 def feature_tag(f):
-    tags = []
-    for name, key in (('branch', 'branch'), ('nested', 'nested'), ('ring', 'ring'), ('pct-ring', 'pct_ring'),
-                      ('symbol', 'symbol'), ('annotation', 'annotation')):
-        if f[key]:
-            tags.append(name)
+    tags = [name for name in ('branch', 'ring', 'symbol', 'annotation') if f[name]]
     return '+'.join(tags) or 'plain-chain'
 
 
@@ -180,7 +191,7 @@ def classify(ast, text, feats, kind, obs):
         elif model[0] == 'graph' and obs[0] == 'graph':
             same = not compare(model[1], model[2], obs[1], obs[2])
         if same:
-            return 'read_cgsmiles/consecutive-branch-closures'
+            return F7_SIGNATURE
         return 'read_cgsmiles/consecutive-branch-closures/unmodelled/' + kind
     return 'read_cgsmiles/%s/%s' % (feature_tag(feats), kind)
 
@@ -192,25 +203,32 @@ def check_case(case):
     feats = g1.features(ast)
     kinds = sum(1 for k in ('branch', 'ring', 'symbol', 'annotation') if feats[k])
     nontrivial = kinds >= 2
-    if g1.scope_violation(ast) is not None or g1.has_multiplier(ast):
+    try:
+        # recipes are inside the scope by construction; complete ASTs (random part, replays) are checked
+        if feats['node_mult'] or feats['branch_mult'] or ('ast' in case and g1.scope_violation(ast) is not None):
+            return Outcome(text, False, [], skipped=True, note='outside the C04 scope')
+        exp_nodes, exp_edges = g1.denote_lists(ast)
+    except g1.NotInGrammar:
         return Outcome(text, False, [], skipped=True, note='outside the C04 scope')
-    exp_nodes, exp_edges = g1.denote_lists(ast)
     try:
         graph = cgsmiles.read_cgsmiles(text)
     except Exception as e:  # the property says reading succeeds
         kind = 'exception-' + type(e).__name__
         sig = classify(ast, text, feats, kind, ('exc', type(e).__name__))
         return Outcome(text, nontrivial, [Failure('read_cgsmiles', kind, '%s -> %s: %s' % (text, type(e).__name__, e), sig,
-                                                  text=text, expected_edges=_fmt_edges(exp_edges))])
+                                                  text=text)])
     obs_nodes, obs_edges = observed_lists(graph)
     diffs = compare(exp_nodes, exp_edges, obs_nodes, obs_edges)
     if not diffs:
         return Outcome(text, nontrivial, [])
     kind = diffs[0][0]
     sig = classify(ast, text, feats, kind, ('graph', obs_nodes, obs_edges))
-    return Outcome(text, nontrivial, [Failure('read_cgsmiles', kind, '%s: %s' % (text, '; '.join(d for _, d in diffs[:4])), sig,
-                                              text=text, expected_edges=_fmt_edges(exp_edges),
-                                              observed_edges=_fmt_edges(obs_edges))])
+    detail = '%s: %s' % (text, '; '.join(d for _, d in diffs[:4]))
+    if sig == F7_SIGNATURE:
+        # a known class that makes up a fifth of the space: keep the record small
+        return Outcome(text, nontrivial, [Failure('read_cgsmiles', kind, detail, sig)])
+    return Outcome(text, nontrivial, [Failure('read_cgsmiles', kind, detail, sig, text=text,
+                                              expected_edges=_fmt_edges(exp_edges), observed_edges=_fmt_edges(obs_edges))])
 
 
 _fmt_edges = g1.fmt_edges
